@@ -253,6 +253,27 @@ def outcome_counts(outs):
     return c
 
 
+def load_known(prop):
+    """checks/<prop>.known.json: findings confirmed by this check on the unchanged tree, same entry format as known_findings.json"""
+    p = os.path.join(VERIF, 'checks', prop + '.known.json')
+    if not os.path.exists(p):
+        return []
+    return [k for k in json.load(open(p)).get('open', []) if k.get('property') == prop]
+
+
+def report(ctx, known, what, witness):
+    """P-rejection -> KNOWN-FINDING (checks/<prop>.known.json, then known_findings.json via ctx.violation) or VIOLATION"""
+    cls = witness.get('class', {})
+    for k in known:
+        m = k.get('match', {})
+        if m and all(cls.get(a) == b for a, b in m.items()):
+            if k['id'] not in [x['id'] for x in ctx.known]:
+                ctx.known.append(k)
+            ctx.add('known_finding_cases')
+            return False
+    return ctx.violation(what, witness)
+
+
 def conformance(ctx, module, outs, label, projected=True):
     cases = [project(o) for o in outs] if projected else outs
     return ucheck.conformance(ctx, os.path.join(SPEC, module + '.tla'), os.path.join(SPEC, module + '.cfg'), cases, label, chunk=10000)
